@@ -62,6 +62,10 @@ SEEDED_G = dict(SEEDED, **{"SeedGraph": "TRUE", "MaxFile": 12, "MaxVer": 3})
 # auto-link rule on the seeded graph index: an insertion whose metadata names a node creates (and journals) an edge
 AUTOLINK = dict(SEEDED, **{"ALs": "<- c_ALk", "MVals": "<- c_MValsN", "Ids": "<- c_Ids3g", "MaxCtr": 6, "MaxFile": 12, "MaxVer": 3})
 
+# every metric x precision configuration the engine accepts (float32/float16 euclidean, float32/int8 cosine, memory on/off)
+CFGALL = dict(BASE, **{"Cfgs": "<- c_CfgsAll", "Keys": "<- c_Empty", "KVals": "<- c_Empty", "Maints": "<- c_Empty", "ALs": "<- c_Empty",
+                       "MVals": "<- c_MVals1", "MaxFile": 5})
+
 INVS = ["Inv_CleanRestart", "Inv_RestartIdempotent", "Inv_IdMaps", "Inv_ListedIsReadable", "Inv_FwdRevAgree", "Inv_OneActive", "Inv_NoEdgeToDead"]
 PROPS = ["Prop_RejectedNoChange", "Prop_MaintenanceInvisible", "Prop_ReopenIdentity", "Prop_DeleteTouchesOnlyIncident"]
 
@@ -318,6 +322,14 @@ def run(prop, tier):
         for i, b in enumerate(b2):
             b["id"] = "sw%d" % i
         plans.append((SEEDED, b1 + b2))
+    if prop in ("C01", "C04"):
+        ca_ = dict(CFGALL, MaxOps=3 if quick else 4)
+        cc = corpus(chk, "MC_Kektor_allconfigs_corpus", ca_, workers=8, timeout=3000)
+        bc, _ = vlib.behaviours_from_corpus(cc, max_behaviours=150 if quick else 20000, rng=rng,
+                                            need=(lambda ops: "Reopen" in [o.get("op") for o in ops] or len(ops) >= 3) if prop == "C01" else (lambda ops: len(ops) >= 2))
+        for i, b in enumerate(bc):
+            b["id"] = "cf%d" % i
+        plans.append((ca_, bc))
     if prop in ("C01", "C04", "C10"):
         # auto-link rule on the index: insertions whose metadata names a node create and journal an edge
         al = dict(AUTOLINK, MaxOps=1 if quick else 2, MaxRej=0)
@@ -352,8 +364,10 @@ def run(prop, tier):
     variants = (vlib.seed() % 3,) if quick else (0, 1, 2)
     if prop == "C04" and quick:
         variants = (1,)     # efConstruction 2: both insertion paths of AddBatch are exercised
+    # vector dimension of the refinement: 3 or 5 (by seed) in the quick tier, 3 and 17 in the thorough tier
+    dims = ((3, 5)[vlib.seed() % 2],) if quick else (3, 17)
     for consts, behaviours in plans:
-        results = replay(chk, consts, behaviours, variants=variants)
+        results = replay(chk, consts, behaviours, variants=variants, dims=dims)
         judge(chk, prop, consts, behaviours, results)
     chk.assumptions += [
         "constants of the model are small (2 ids, 2 vectors, 1 metadata key, 1 index, 1 KV key; graph: 3 nodes, 1 relation, 2 weights, 2 property maps); larger data only through the refinement (dimension, value types)",
